@@ -38,6 +38,10 @@ ASSUMPTIONS = [
 SHAPES = [(), (1,), (3,), (4,), (5,), (2, 2), (2, 3), (3, 2), (1, 3), (2, 1, 3), (2, 2, 2), (2, 3, 2)]
 
 
+# functions whose method form the library's own tests exercise (conftest "method" interface) and ndarray has
+METHODS = {"any", "all", "cumsum", "diagonal", "mean", "max", "min", "nonzero", "prod", "reshape", "sum"}
+
+
 def setup() -> None:
     pass
 
@@ -73,7 +77,10 @@ def _vals(ch: core.Chooser, shape: tuple, kind: str, nonzero: bool = False) -> d
         pool = ch.sample(pool, min(len(pool), 3))
     data = [ch.choice(pool) for _ in range(size)]
     dtype = {"int": "int64", "float": "float64", "bool": "bool", "bigint": "int64", "uint8": "uint8", "uint64": "uint64", "inf": "float64", "largeint": "int64", "largefloat": "float64"}[kind]
-    return {"const": model.lit_array(numpy.array(data, dtype=dtype).reshape(shape), dtype), "dress": ch.below(3)}
+    dress = ch.below(3)
+    if len(shape) >= 2 and ch.sub("layout").chance(0.15):
+        dress = 3  # the same values held as a transposed (column-major) view
+    return {"const": model.lit_array(numpy.array(data, dtype=dtype).reshape(shape), dtype), "dress": dress}
 
 
 _FORCED_KIND: List[Optional[str]] = [None]
@@ -265,13 +272,14 @@ def g_select(ch: core.Chooser, name: str) -> dict:
 def g_create(ch: core.Chooser, name: str) -> dict:
     kind = _kind(ch)
     shape = ch.choice(SHAPES)
+    order = {"order": ch.sub("order").choice(["F", "F", "C", "K", "A"])} if ch.sub("order").chance(0.3) else {}
     if name in ("zeros_like", "ones_like"):
         kw = {"dtype": ch.choice(["float64", "int64"])} if ch.chance(0.3) else {}
-        return {"args": [_vals(ch.sub("a"), shape, kind)], "kwargs": kw}
+        return {"args": [_vals(ch.sub("a"), shape, kind)], "kwargs": dict(kw, **order)}
     if name == "full_like":
-        return {"args": [_vals(ch.sub("a"), shape, kind), _vals(ch.sub("v"), (), kind)], "kwargs": {}}
+        return {"args": [_vals(ch.sub("a"), shape, kind), _vals(ch.sub("v"), (), kind)], "kwargs": order}
     if name == "full":
-        return {"args": [{"tuple": list(ch.choice([(2,), (2, 2), (), (3, 1)]))}, _vals(ch.sub("v"), (), kind)], "kwargs": {}}
+        return {"args": [{"tuple": list(ch.choice([(2,), (2, 2), (), (3, 1), (2, 3)]))}, _vals(ch.sub("v"), (), kind)], "kwargs": {k: v for k, v in order.items() if v in "CF"}}
     raise core.HarnessError(name)
 
 
@@ -386,6 +394,14 @@ def generate(rs: int, tier: str, index: int) -> dict:
             primer_cast = "int8"
         step = {"id": 0, "k": "mirror", "fn": fn, "args": spec["args"], "kwargs": spec["kwargs"], "primer_cast": primer_cast,
                 "spelling": "numpoly" if fn == "full" else ch.choice(["numpoly", "numpoly", "numpy"])}
+        # the method spelling (p.sum(...)): ndarray's own methods route through __array_ufunc__ / __array_function__
+        cm = ch.sub("method")
+        if fn in METHODS and spec["args"] and isinstance(spec["args"][0], dict) and "const" in spec["args"][0] and cm.chance(0.35):
+            step["spelling"] = "method"
+        # history: the same function was called earlier with keywords the judged call leaves out
+        if cm.chance(0.25):
+            step["primer_kwargs"] = cm.choice([{"keepdims": True}, {"initial": 100}, {"dtype": "float64"}, {"dtype": "bool"}, {"axis": 0},
+                                               {"axis": 0, "keepdims": True}, {"axis": 0, "initial": 100}, {"axis": -1, "dtype": "float64"}])
     allenvs = [(p, f) for p in POLICIES for f in FILLS]
     envs = [("stable", "zero")] + ch.sample([e for e in allenvs if e != ("stable", "zero")], 7 if tier == "thorough" else 2)
     return {"property": ID, "run_seed": rs, "tier": tier, "prelude": prelude.gen_prelude(core.Chooser(rs, "prelude")), "envs": [list(e) for e in envs], "steps": [step]}
@@ -399,6 +415,8 @@ def _dress(arr: numpy.ndarray, dress: int) -> Any:
 
     if dress == 0:
         return numpoly.polynomial(arr)
+    if dress == 3:
+        return numpoly.polynomial(numpy.ascontiguousarray(arr.T)).T
     if dress == 1:
         return numpoly.polynomial_from_attributes([[0, 0]], [arr], ("q0", "q3"), retain_names=True, retain_coefficients=True)
     return numpoly.polynomial_from_attributes([[0, 0], [1, 2]], [arr, numpy.zeros_like(arr)], ("q1", "q2"), retain_names=True, retain_coefficients=True)
@@ -542,6 +560,24 @@ class Runner:
                             env.remember(a)
                     func = getattr(numpoly, fn, None) if step.get("spelling") == "numpoly" else None
                     func = func or np_func
+                    if step.get("spelling") == "method" and p_args and isinstance(p_args[0], numpoly.ndpoly):
+                        try:  # only where the plain array's own method accepts this call
+                            with numpy.errstate(all="ignore"):
+                                getattr(np_args[0], fn)(*np_args[1:], **kwargs)
+                        except Exception:  # noqa: BLE001
+                            self.bump("probe:method_spelling_not_available")
+                        else:
+                            self.bump("probe:method_spelling")
+
+                            def func(first: Any, *rest: Any, _fn: str = fn, **kw: Any) -> Any:  # noqa: F811
+                                return getattr(first, _fn)(*rest, **kw)
+                    if step.get("primer_kwargs"):
+                        try:
+                            with numpy.errstate(all="ignore"):
+                                func(*p_args, **{**kwargs, **step["primer_kwargs"]})
+                            self.bump("probe:primer_same_call_more_keywords")
+                        except Exception:  # noqa: BLE001
+                            pass
                     if step.get("primer_cast"):
                         try:
                             narrow_args = []
@@ -731,6 +767,11 @@ def simplify(plan: dict):
     step = plan["steps"][0]
     if step["k"] != "mirror":
         return
+    for key in ("primer_kwargs", "primer_cast"):
+        if step.get(key):
+            yield dict(plan, steps=[dict(step, **{key: None})])
+    if step.get("spelling") == "method":
+        yield dict(plan, steps=[dict(step, spelling="numpoly")])
     if step["kwargs"]:
         for key in step["kwargs"]:
             yield dict(plan, steps=[dict(step, kwargs={k: v for k, v in step["kwargs"].items() if k != key})])
